@@ -222,11 +222,18 @@ TEXT['C15'] = dict(
 
 TEXT['C08'] = dict(
     category='other',
-    text='Bounded stand-in only so far: real interpolators against scipy B-splines on independently constructed knot vectors and a '
-         'dense collocation solve, over an exhaustive sweep of small spaces (1-D and 2-D, all boundary/degree combinations). '
-         'The index lemma S(x_i) = (mat c)_i of DESIGN C08 is planned.',
-    note=BOUNDED_NOTE,
-    technique='bounded run-time checking against an independent spline library and dense linear algebra')
+    text='Deductive part (the collocation clause): SplineInterpolator1D.collocation_matrix is verified for clamped spaces, on general '
+         'knots with symbolic degree and for uniform cubic splines, any number of points: row i holds, in the columns span_i-degree '
+         '.. span_i, the Cox-de Boor values N_j(x_i) (resp. the cardinal cubic pieces at the offset of x_i in its cell) that the '
+         'proved kernels of C07 return, and zeros elsewhere - the same window and values the evaluation kernels use, so an exact '
+         'solve of the factorised system gives S(x_i) = u_i. Everything else (periodic column wrap, the 2-D sweeps, the solvers, '
+         'polynomial reproduction) is covered by the bounded part: real interpolators against scipy B-splines on independently '
+         'constructed knot vectors and a dense collocation solve, over an exhaustive sweep of small spaces (1-D and 2-D, all '
+         'boundary/degree combinations).',
+    note=PROOF_NOTE + BOUNDED_NOTE + 'Assumed: LAPACK banded LU / SuperLU solve the system exactly (real arithmetic). The step from '
+         'the matrix rows to (A c)_i = S(x_i) is by reading the two contracts (same window, same spec function), not a checked lemma.',
+    technique='sidecar contract with loop invariant over matrix rows, modular use of the C07 kernel contracts; bounded run-time '
+              'checking against an independent spline library and dense linear algebra')
 TEXT['C09'] = dict(
     category='other',
     text='Bounded stand-in only so far: stored basis integrals, quadrature weights and w.u against exact antiderivatives over the '
